@@ -69,6 +69,8 @@ def programs(tier):
         P('v', '1')), [[0, 'out3', 0], ['seq', 'lenN', 2], ['v', 'maybe3', 1]]))
     out.append(('global-of-failed-element-stays', doc({'tag': 'a', 'onerror': fb, 'children': [
         {'tag': 'i', 'define': [['global', 'g', py('7')]], 'children': ['in', L(0)]}]}, P('g', 'g')), o3(0)))
+    out.append(('several-globals-of-failed-element-stay', doc({'tag': 'a', 'onerror': fb, 'children': [
+        {'tag': 'i', 'define': [['global', ['ga', 'gb'], py('(7, 8)')]], 'children': ['in', L(0)]}]}, P('ga', 'a'), P('gb', 'b')), o3(0)))
     out.append(('fallback-fails', doc({'tag': 'a', 'onerror': fb, 'children': [
         {'tag': 'b', 'onerror': ['text', py('L(1)')], 'children': [L(0)]}, 'after']}), o3(0, 1)))
     out.append(('content', doc({'tag': 'a', 'content': ['text', py('L(0)')], 'onerror': fb, 'children': ['x']}),
